@@ -275,7 +275,21 @@ pub fn run(ctx: &Ctx) -> i32 {
         check_evr("", &format!("{}", c), &format!("r{}", c), cp.wrapping_mul(0x9e3779b97f4a7c15), acc);
         check_nopanic(&format!("{0}-{0}:{0}-{0}.{0}", c), acc);
     }));
-    let s5 = SubReport::new("unicode-scalars", "A", "every Unicode scalar value except '-', ':', '.' and NUL inside the name, the version and the release of a NEVRA and of an EVR (round trip as for the tuples), and in every component position of a text given to the parsers (no panic)", u);
+    let mut s5_extra = Acc::new();
+    let mut s5 = SubReport::new("unicode-scalars", "A", "the values Default::default() gives; every Unicode scalar value except '-', ':', '.' and NUL inside the name, the version and the release of a NEVRA and of an EVR (round trip as for the tuples), and in every component position of a text given to the parsers (no panic)", u);
+    // values that come from Default::default()
+    {
+        let e = Evr::default();
+        check_evr(e.epoch(), e.version(), e.release(), 1 << 60, &mut s5_extra);
+        let n = Nevra::default();
+        check_nopanic(&n.to_string(), &mut s5_extra);
+        check_nopanic(&n.as_normalized_form(), &mut s5_extra);
+        s5_extra.evals += 1;
+        if Nevra::parse(&n.to_string()) != n || Evr::parse(&e.to_string()) != e {
+            s5_extra.viol(Violation::new("unicode-scalars", format!("the default value formats as {:?} / {:?} and does not parse back to itself", n.to_string(), e.to_string()), json!({"kind": "default"})).sig("clause", "default-roundtrip"));
+        }
+    }
+    s5.acc.merge(s5_extra);
     let mut s4 = SubReport::new("no-panic", "A", &format!("every string of length ≤ {} over {{a,1,-,.,:}} plus \"none\", \"gzip\", …, every sequence of ≤ 3 words from the vocabulary of compressor names and rpm payload flags (gzip … none, gzdio … ufdio, w, 9, 19, T, L, '.', ' ', '-') in both cases, and texts of length 3 … 4096 (every power of two ± 1) with a 2-, 3- or 4-byte character straddling the boundary, through Nevra::parse, Evr::parse, parse_values, rpm_evr_compare, CompressionType::from_str", l), d);
     for w in ["none", "gzip", "zstd", "xz", "bzip2", "", "é", "-:-.", ":::", "---"] {
         check_nopanic(w, &mut s4.acc);
